@@ -69,7 +69,8 @@ namespace IEEE
 open Rare.F64
 
 /-- The functions of Go's `math` package the model computes, by their Go name: those IEEE-754 determines and
-    (round 4b) the logarithms as they run on amd64 (`Model/C11Log.lean`). -/
+    (round 4b) the logarithms as they run on amd64 (`Model/C11Log.lean`), (round 4c) the trigonometric functions and
+    `Exp2` (pure Go on amd64, `Model/C19Trig.lean`, `IEEE.exp2`).  Only `Exp` is left to the parameter. -/
 def goMathExact (name : String) : Option (F64 → F64) :=
   if name = "Abs" then some F64.abs
   else if name = "Sqrt" then some sqrt
@@ -79,6 +80,13 @@ def goMathExact (name : String) : Option (F64 → F64) :=
   else if name = "Log" then some Rare.C11.Log.logAsm
   else if name = "Log10" then some Rare.C11.Log.log10
   else if name = "Log2" then some Rare.C11.Log.log2
+  else if name = "Sin" then some Rare.C19.Trig.sin
+  else if name = "Cos" then some Rare.C19.Trig.cos
+  else if name = "Tan" then some Rare.C19.Trig.tan
+  else if name = "Asin" then some Rare.C19.Trig.asin
+  else if name = "Acos" then some Rare.C19.Trig.acos
+  else if name = "Atan" then some Rare.C19.Trig.atan
+  else if name = "Exp2" then some exp2
   else none
 
 end IEEE
